@@ -468,6 +468,9 @@ impl Scheduler {
                     mem::drop(ready);
 
                     if self.core.claim_pending_queue(queue) {
+                        // Set the queue as active (so it's marked as panicked if one of the jobs we run here panics)
+                        let _active = ActiveQueue { queue: &*queue };
+
                         // We're now running the queue: try to run jobs on it until it's ready
                         while !*ready_mutex.lock().unwrap() {
                             match JobQueue::run_one_job_now(queue) {
